@@ -203,7 +203,8 @@ def _work(sc):
 
 
 def run(tier: str, seed: int, only=None) -> Report:
-    conds = e1_conds(tier)
+    from ..ch import tier_conds
+    conds = tier_conds(e1_conds, tier, cap=300)
     if only:
         conds = [c for c in conds if only in c.oid]
     rep = Report(
